@@ -20,9 +20,24 @@ Tie to the source:
      strings overlap (accumulated charges +-2, different species on one leg), also with repeated sites, chosen with the
      help of the dense reference so that the exact value is non-zero: measure_nsite (CTM, boundary MPS),
      measure_nsite_exact, measure_2x2.
+     (iii) the input forms of the measure functions: `EnvBoundaryMPS.measure_nn({bond: (O, P)})` / `{bond: {key: (O, P)}}` with a
+     different pair of operators per bond and the bonds listed in any order (reversed, shuffled, subsets; only the boundaries of
+     the set-up that are needed), `EnvCTM.measure_nn(O, P, bond=[bonds])`, `measure_1site({site: [ops]})` with the sites in any
+     order; `measure_2site` on windows (xrange, yrange) anywhere in the lattice for BOTH environments (origins with
+     xrange[0] != yrange[0]), every string form of `pairs` and explicit lists of pairs (closed lists and lists with gaps; the
+     returned set of pairs must be the requested one).
  (b) NTU bond metrics of every cluster type on every bond: anti-Hermitian part and smallest eigenvalue at round-off;
-     one `evolution_step_` with a truncation that does not bind: dense state == dense state of the untruncated
+     `evolution_step_` with a truncation that does not bind: dense state == dense state of the untruncated
      `apply_gate_` up to a scalar, `truncation_error` <= 1e-8; reported nonhermitian_part/min_eigenvalue at round-off.
+     Besides EnvNTU with default options: EnvBP(which = 'BP' (bipartite metric, truncate_bipartite_), 'NN+BP', 'NNN+BP') after
+     1/3/10 sweeps and EnvNTU with non-default VALID options — pinv_cutoffs as any subset of the default grid (+1e-13) that keeps a
+     cutoff <= 1e-12, in ascending / descending / shuffled order, initialization, max_iter >= 1, tol_iter, fix_metric in
+     {0, 1, None}, method 'mpo' / 'NN', opts_svd as a list of dicts — with strong and WEAK gates, also on 'weak' states (flavour
+     'weak': half-filled product state + one layer of small steps on every bond) whose bonds carry components of weights
+     1, |x|^2, |x|^4/4: only there do the regularisations of the truncation matter.  For the bipartite truncation "does not
+     bind" includes the documented regularisation (eigenvalues of the metric-weighted bond matrices below min(pinv_cutoffs) are
+     discarded): the spectra are recomputed from the real bond metric and cases with an eigenvalue in PINV_ZONE are skipped with
+     a count (function pinv_may_bind); tolerances of that path: see TOL_BIPARTITE / TOL_TRUNC_SQRT.
  (c) correspondence with the Lean specification (driver `drv_c12`, theorems in YProofs/Props/C12.lean):
      the fermionic sign of every measured operator order (real `sign_canonical_order` vs model `signCanonicalOrder`,
      `invSign` and the harness' own inversion parity), the bookkeeping of `DoublePepsTensor.add_charge_swaps_` on
@@ -52,6 +67,21 @@ BIG_D = 4096
 # the key is registered in known_findings.json; until then the affected inputs are counted and described in the
 # evidence notes but raise no alarm (same convention as harness/props/c05.py).
 KEY_BD_NN_ODD = "c12:bdmps:measure_nn:fermionic-odd"   # EnvBoundaryMPS.measure_nn ignores the charge of odd operators
+# measure_2site(pairs=[explicit list]) continues the fermionic string of O only through the sites whose pair IS in the list
+# (_env_window.py: the add_charge_swaps_ of a passed site sit inside `if (s0, s1) in pairs`): odd operators, list with gaps
+KEY_2SITE_PAIRS_ODD = "c12:measure_2site:pairs-list:fermionic-odd"
+
+# evolution step: options explored besides the defaults
+PINV_GRID = (1e-12, 1e-11, 1e-10, 1e-9, 1e-8, 1e-7, 1e-6, 1e-5, 1e-4)    # the default pinv_cutoffs of evolution_step_
+# truncation_error = sqrt(error2) where error2 is a DIFFERENCE evaluated in floating point: when the new bond has redundant
+# directions (null space of the metric) the pseudo-inverse based truncations (bipartite metric of EnvBP(which='BP'), EAT-only
+# initialisation) return error2 ~ 1e-17..1e-15, i.e. truncation_error ~ sqrt(round-off) (observed <= 5e-8; SVD initialisation: <= 4e-15)
+TOL_TRUNC_SQRT = 1e-5
+# bipartite truncation: eigenvalues of the metric-weighted bond matrices below min(pinv_cutoffs) >= 1e-13 (relative) are discarded
+# by construction, i.e. the amplitude resolution of the documented algorithm is ~3e-7; with the guard PINV_ZONE the observed
+# ray distance is <= 2e-14
+TOL_BIPARTITE = 1e-6
+PINV_ZONE = (1e-14, 1e-9)   # relative eigenvalues in this zone: a pinv cutoff may bind -> outside "truncation does not bind"
 
 
 # ------------------------------------------------------------------------------------------------------
@@ -333,6 +363,8 @@ def make_recipe(rng, fid, Nx, Ny, flavour):
     sites = f_sites(Nx, Ny)
     if flavour == "rich":
         return make_rich_recipe(rng, fid, Nx, Ny)
+    if flavour == "weak":
+        return make_weak_recipe(rng, fid, Nx, Ny)
     init = {f"{s[0]},{s[1]}": rng.choice(sorted(fam.vecs)) for s in sites}
     bonds = all_bonds(Nx, Ny)
     rng.shuffle(bonds)
@@ -410,6 +442,23 @@ def make_rich_recipe(rng, fid, Nx, Ny):
         if rng.random() < 0.25:
             gates.append(random_gate(rng, fam, site=rng.choice(b)))
     return {"family": fid, "dims": [Nx, Ny], "init": init, "gates": gates, "flavour": "rich", "loopfree": (Nx == 1 or Ny == 1)}
+
+
+def _weak_step(rng):
+    """a small (Trotter-like) complex step, |step| in [0.02, 0.13]"""
+    sz = 0.02 * (6 ** rng.random())
+    return [round(sz, 6), round(sz * rng.uniform(-1, 1), 6)]
+
+
+def make_weak_recipe(rng, fid, Nx, Ny):
+    """flavour 'weak': the regime of a time evolution with small steps — a half-filled product state and one layer of WEAK gates
+    on every bond.  Every bond is weakly entangled: the weights of its components span many orders of magnitude (1, |x|^2,
+    |x|^4/4, ...), which is where the regularisations of the truncation (pinv cutoffs) matter.  Same JSON format."""
+    recipe = make_rich_recipe(rng, fid, Nx, Ny)
+    for gt in recipe["gates"]:
+        gt["step"] = _weak_step(rng)
+    recipe["flavour"] = "weak"
+    return recipe
 
 
 def build_state(recipe):
@@ -570,6 +619,10 @@ def key_site(k):
     return (int(k[0]), int(k[1]))
 
 
+class ProbeKeys(Exception):
+    """a measure function did not return the set of sites / bonds / pairs it was asked for"""
+
+
 def run_probe(fam, env, probe):
     """evaluate one measurement on a real environment.  Returns list of (names, sites, value)."""
     fn = probe["fn"]
@@ -592,7 +645,37 @@ def run_probe(fam, env, probe):
             s = tuple(probe["site"])
             out.append((names, [s], env.measure_1site(ops[0], site=s)))
     elif fn == "measure_nn":
-        if probe.get("bond") is None:
+        if probe.get("style") == "dict":
+            # EnvBoundaryMPS: documented input form {bond: (O, P)} or {bond: {key: (O, P)}}; the dict is built in the ORDER of
+            # probe["items"] (any order of the bonds is a valid input); results are keyed (s0, s1) + key
+            OP, meta = {}, {}
+            for bond, entries in probe["items"]:
+                b = (tuple(bond[0]), tuple(bond[1]))
+                if len(entries) == 1 and entries[0][0] is None:
+                    OP[b] = (fam.opt[entries[0][1][0]], fam.opt[entries[0][1][1]])
+                    meta[b + ((),)] = list(entries[0][1])
+                else:
+                    OP[b] = {tuple(k): (fam.opt[nm[0]], fam.opt[nm[1]]) for k, nm in entries}
+                    for k, nm in entries:
+                        meta[b + (tuple(k),)] = list(nm)
+            res = env.measure_nn(OP)
+            got = {}
+            for k, val in res.items():
+                got[(key_site(k[0]), key_site(k[1]), tuple(k[2:]))] = val
+            if set(got) != set(meta):
+                raise ProbeKeys(f"measure_nn(dict) returned keys {sorted(got)} for the requested {sorted(meta)}")
+            for k, val in got.items():
+                out.append((meta[k], [k[0], k[1]], val))
+        elif probe.get("style") == "bondlist":
+            # EnvCTM: bond = a sequence of bonds (any order, any orientation); results keyed by the bonds as given
+            bl = [(tuple(b[0]), tuple(b[1])) for b in probe["bonds"]]
+            res = env.measure_nn(ops[0], ops[1], bond=bl)
+            got = {(key_site(k0), key_site(k1)): val for (k0, k1), val in res.items()}
+            if set(got) != set(bl):
+                raise ProbeKeys(f"measure_nn(bond=list) returned keys {sorted(got)} for the requested {sorted(bl)}")
+            for (s0, s1), val in got.items():
+                out.append((names, [s0, s1], val))
+        elif probe.get("bond") is None:
             res = env.measure_nn(ops[0], ops[1])
             for (k0, k1), val in res.items():
                 out.append((names, [key_site(k0), key_site(k1)], val))
@@ -610,6 +693,13 @@ def run_probe(fam, env, probe):
         res = env.measure_2site(ops[0], ops[1], **kw)
         for (k0, k1), val in res.items():
             out.append((names, [key_site(k0), key_site(k1)], val))
+        if isinstance(kw["pairs"], list):
+            # "pairs: list ... limits the pairs of sites to calculate": exactly the listed (forward) pairs come back
+            got = {(key_site(k0), key_site(k1)) for k0, k1 in res}
+            if got != set(kw["pairs"]):
+                raise ProbeKeys(f"measure_2site(pairs=list) returned pairs {sorted(got)} for the requested {sorted(kw['pairs'])}")
+        elif not res:
+            raise ProbeKeys(f"measure_2site(pairs={kw['pairs']!r}) returned no pair at all")
     elif fn in ("measure_nsite", "measure_2x2", "measure_line", "measure_nsite_exact"):
         sites = as_sites(probe["sites"])
         out.append((names, sites, getattr(env, fn)(*ops, sites=sites)))
@@ -720,6 +810,32 @@ def overlap_word(rng, fam, guide, pool, kmax=6, tries=16, floor=1e-4):
     return best
 
 
+def windows(Nx, Ny):
+    """all windows [xa, xb) x [ya, yb) with at least two sites that are a proper part of the lattice"""
+    return [(xa, xb, ya, yb) for xa in range(Nx) for xb in range(xa + 1, Nx + 1) for ya in range(Ny) for yb in range(ya + 1, Ny + 1)
+            if (xb - xa) * (yb - ya) >= 2 and (xb - xa, yb - ya) != (Nx, Ny)]
+
+
+def pair_list(rng, wsites, dirn):
+    """an explicit list of pairs for measure_2site: forward pairs in the order of the sweep (dirn 'h': row after row, 'v':
+    column after column) and same-site pairs.  Returns (list, closed): 'closed' = for every first site s0 of the list ALL the
+    later sites of the window are present (the same set of pairs per s0 as the string forms of `pairs` select); otherwise the
+    list has gaps (sites between / after s0 and s1 that are not asked for)."""
+    so = (lambda x: x) if dirn == "h" else (lambda x: x[::-1])
+    if rng.random() < 0.35:
+        firsts = rng.sample(wsites, rng.randint(1, min(2, len(wsites))))
+        lst = [(a, b) for a in firsts for b in wsites if so(a) < so(b)] + [(a, a) for a in firsts if rng.random() < 0.5]
+    else:
+        allp = [(a, b) for a in wsites for b in wsites if so(a) < so(b)]
+        lst = rng.sample(allp, rng.randint(1, min(5, len(allp)))) + [(a, a) for a in wsites if rng.random() < 0.15]
+    if not lst:
+        lst = [(wsites[0], wsites[0])]
+    rng.shuffle(lst)
+    have = set(lst)
+    closed = all((a, c) in have for a, _ in lst for c in wsites if so(a) < so(c))
+    return [[list(a), list(b)] for a, b in lst], closed
+
+
 def plan_probes(rng, fam, kind, spec, Nx, Ny, quick, recipe=None, guide=None):
     """the measurements to run on one environment of one case (JSON)"""
     sites = f_sites(Nx, Ny)
@@ -748,8 +864,10 @@ def plan_probes(rng, fam, kind, spec, Nx, Ny, quick, recipe=None, guide=None):
         probes.append({"fn": "measure_1site", "ops": [rng.choice(even1)]})
         probes.append({"fn": "measure_1site", "ops": [rng.choice(even1)], "site": list(rng.choice(sites))})
         # all sites at once with a list of operators per site (different lists on different sites)
+        # (the sites of the dict in any order)
         probes.append({"fn": "measure_1site", "style": "lists", "ops": [],
-                       "per_site": {f"{x},{y}": [rng.choice(even1 + ["I"]) for _ in range(rng.choice([1, 2, 2]))] for x, y in sites}})
+                       "per_site": {f"{x},{y}": [rng.choice(even1 + ["I"]) for _ in range(rng.choice([1, 2, 2]))]
+                                    for x, y in rng.sample(sites, len(sites))}})
     # nearest neighbours
     if bonds and has_lr and has_tb:
         if kind == "bp" and not chain:
@@ -763,6 +881,32 @@ def plan_probes(rng, fam, kind, spec, Nx, Ny, quick, recipe=None, guide=None):
             probes.append({"fn": "measure_nn", "ops": ["I", "I"], "bond": rng.choice(bonds)})
         else:
             probes.append({"fn": "measure_nn", "ops": [rng.choice(even1), rng.choice(even1 + ["I"])]})
+    if kind == "ctm" and len(bonds) >= 2:
+        # a sequence of bonds in any order and orientation
+        bl = [b if rng.random() < 0.5 else [b[1], b[0]] for b in rng.sample(bonds, rng.randint(2, len(bonds)))]
+        probes.append({"fn": "measure_nn", "style": "bondlist", "ops": pick_pair(), "bonds": bl})
+    if kind == "bd" and bonds:
+        # the dict forms {bond: (O, P)} / {bond: {key: (O, P)}}: a different pair of operators on every bond, the bonds listed
+        # in ANY order (reversed lattice order as from psi.bonds(reverse=True), shuffled, a subset).  Only the boundaries that
+        # exist are needed: vertical bonds use the 'l'/'r' boundary MPSs, horizontal ones 't'/'b'.  Operators: not fermionically
+        # odd (odd ones fall under KEY_BD_NN_ODD whatever the form of the input)
+        usable = [b for b in bonds if (has_lr if b[0][1] == b[1][1] else has_tb)]
+        calm = [list(q) for q in pairs if not fam.odd(q[0])]
+        for order in (["reversed", "shuffled"] if len(usable) >= 2 and calm else []):
+            bl = list(usable)
+            if order == "reversed":
+                bl.reverse()
+            else:
+                rng.shuffle(bl)
+                if rng.random() < 0.3:
+                    bl = bl[:rng.randint(2, len(bl))]
+            items = []
+            for b in bl:
+                if rng.random() < 0.75:
+                    items.append([b, [[None, rng.choice(calm)]]])
+                else:
+                    items.append([b, [[[j], rng.choice(calm)] for j in range(rng.randint(1, 2))]])
+            probes.append({"fn": "measure_nn", "style": "dict", "ops": [], "order": order, "items": items})
     if kind == "bp":
         return probes
     # two-site
@@ -775,18 +919,25 @@ def plan_probes(rng, fam, kind, spec, Nx, Ny, quick, recipe=None, guide=None):
         ov = rng.choice([None, None, {"max_sweeps": 1}, {"max_sweeps": 3}, {"max_sweeps": 2, "overlap_tol": 1e-10}])
         if ov is not None:     # options of the refinement of the boundary vectors inside measure_2site
             probes[-1]["opts_var"] = ov
-    if kind == "ctm" and Nx * Ny >= 3:
-        # a window that is a proper part of the lattice (the legs towards the rest of the lattice are non-trivial)
-        for _ in range(1 if quick else 2):
-            xa = rng.randrange(Nx)
-            xb = rng.randrange(xa + 1, Nx + 1)
-            ya = rng.randrange(Ny)
-            yb = rng.randrange(ya + 1, Ny + 1)
-            if (xb - xa) * (yb - ya) < 2 or (xb - xa, yb - ya) == (Nx, Ny):
-                xa, xb, ya, yb = (0, Nx, 0, Ny - 1) if Ny > 1 and rng.random() < 0.5 else ((0, Nx - 1, 0, Ny) if Nx > 1 else (0, Nx, 0, Ny - 1))
-            if (xb - xa) * (yb - ya) >= 1:
-                probes.append({"fn": "measure_2site", "ops": pick_pair(), "dirn": rng.choice(["v", "h"]), "pairs": "<=",
-                               "xrange": [xa, xb], "yrange": [ya, yb]})
+    wins = windows(Nx, Ny)
+    if wins and dirns:
+        # windows that are a proper part of the lattice (the legs towards the rest of the lattice are non-trivial), anywhere in
+        # the lattice (origins with xrange[0] != yrange[0] included), every documented form of `pairs` incl. explicit lists
+        for _ in range((1 if quick else 2) + (1 if kind == "bd" else 0)):
+            xa, xb, ya, yb = rng.choice(wins)
+            dirn = rng.choice(dirns)
+            wsites = [(x, y) for x in range(xa, xb) for y in range(ya, yb)]
+            pr = rng.choice(["<=", "<=", "<", "corner <=", "row <=", "row <", "list", "list"])
+            probe = {"fn": "measure_2site", "ops": pick_pair(), "dirn": dirn, "pairs": pr, "xrange": [xa, xb], "yrange": [ya, yb]}
+            if pr == "list":
+                probe["pairs"], probe["pairs_closed"] = pair_list(rng, wsites, dirn)
+            probes.append(probe)
+    if dirns and Nx * Ny >= 3:
+        # an explicit list of pairs on the whole lattice
+        dirn = rng.choice(dirns)
+        probe = {"fn": "measure_2site", "ops": pick_pair(), "dirn": dirn}
+        probe["pairs"], probe["pairs_closed"] = pair_list(rng, sites, dirn)
+        probes.append(probe)
     # n-site
     odd_names = [nm for nm in sorted(fam.opt) if fam.odd(nm)]
 
@@ -872,7 +1023,7 @@ def plan_probes(rng, fam, kind, spec, Nx, Ny, quick, recipe=None, guide=None):
 
 def is_known(key):
     from harness import core
-    return any(k.get("property") == "C12" and k.get("key") == key and k.get("status") == "known" for k in core.load_known())
+    return any(k.get("property") == "C12" and k.get("key") == key and k.get("status") in ("known", "fixed") for k in core.load_known())
 
 
 def candidate(ctx, key, what, case):
@@ -905,6 +1056,9 @@ def check_probe(ctx, fam, dense, v, recipe, kind, spec, env, probe, signs):
     with ZipperWatch() as zw:
         try:
             res = run_probe(fam, env, probe)
+        except ProbeKeys as e:
+            ctx.fail("oracle", f"c12:{tag}:keys", f"{tag} on {recipe['family']} {recipe['dims']}: {e}", case=base_case, concrete=True)
+            return 0
         except yastn.YastnError as e:
             # legitimate refusals (e.g. sites outside a 2x2 window / not on a line are never generated; anything else is
             # unexpected on a valid input)
@@ -932,8 +1086,17 @@ def check_probe(ctx, fam, dense, v, recipe, kind, spec, env, probe, signs):
             ctx.count(f"overlap-word:string-charge={min(string_overlap(fam, dense, names, sites), 3)}")
             if len(set(map(tuple, sites))) < len(sites):
                 ctx.count("overlap-word:repeated-site")
-        ctx.extra["max_err"] = max(ctx.extra.get("max_err", 0.0), float(err)) if not (
-            kind == "bd" and probe["fn"] == "measure_nn" and any(fam.odd(nm) for nm in names)) else ctx.extra.get("max_err", 0.0)
+        in_candidate_region = any(fam.odd(nm) for nm in names) and (
+            (kind == "bd" and probe["fn"] == "measure_nn")
+            or (probe["fn"] == "measure_2site" and isinstance(probe["pairs"], list) and not probe.get("pairs_closed")))
+        if not in_candidate_region:
+            ctx.extra["max_err"] = max(ctx.extra.get("max_err", 0.0), float(err))
+        if probe["fn"] == "measure_2site":
+            ctx.count("2site:pairs=" + ("list-closed" if probe.get("pairs_closed") else "list-gaps") if isinstance(probe["pairs"], list) else "2site:pairs=str")
+            if "xrange" in probe:
+                ctx.count("2site:window-origin:" + ("x0!=y0" if probe["xrange"][0] != probe["yrange"][0] else "x0==y0"))
+        if probe.get("style") in ("dict", "bondlist"):
+            ctx.count(f"nn:{probe['style']}")
         if fam.fermionic and len(names) >= 2:
             signs.append((names, sites))
             if any(dense.rank[tuple(a)] > dense.rank[tuple(b)] for a, b in zip(sites, sites[1:])):
@@ -949,6 +1112,11 @@ def check_probe(ctx, fam, dense, v, recipe, kind, spec, env, probe, signs):
             if kind == "bd" and probe["fn"] == "measure_nn" and any(fam.odd(nm) for nm in names):
                 candidate(ctx, KEY_BD_NN_ODD, "EnvBoundaryMPS.measure_nn(O, P) with fermionically odd O, P applies no charge swaps "
                           "(set_operator_ only, _env_boundary_mps.py:289-319) and returns a wrong value; e.g. " + what, case)
+            elif (probe["fn"] == "measure_2site" and isinstance(probe["pairs"], list) and not probe.get("pairs_closed")
+                  and any(fam.odd(nm) for nm in names)):
+                candidate(ctx, KEY_2SITE_PAIRS_ODD, "measure_2site(O, P, pairs=[explicit list]) with fermionically odd O, P: the string of O "
+                          "is continued only through sites whose pair is in the list (_env_window.py, add_charge_swaps_ inside "
+                          "`if (s0, s1) in pairs`), a list with gaps gives wrong values (EnvBoundaryMPS and EnvCTM, dirn 'v' and 'h'); e.g. " + what, case)
             elif all(nm == "I" for nm in names):
                 ctx.fail("oracle", f"c12:{tag}:identity", what, case=case, concrete=True)
             else:
@@ -1020,51 +1188,159 @@ def check_metrics(ctx, recipe, psi, bonds, whichs):
     return n
 
 
-def check_evolution(ctx, fam, recipe, psi, gate, which):
+def evolution_spec(rng, fam, wide):
+    """environment and options of one evolution step (JSON).  wide=False: EnvNTU with the default options (as before);
+    wide=True: EnvBP with the bipartite metric / cluster+BP metrics / EnvNTU and non-default VALID options."""
+    if not wide:
+        return {"env": "ntu", "which": rng.choice(NTU_WHICH)}
+    r = rng.random()
+    if r < 0.6:
+        evo = {"env": "bp", "which": "BP", "sweeps": rng.choice([1, 3, 10])}
+    elif r < 0.8:
+        evo = {"env": "bp", "which": rng.choice(["NN+BP", "NN+BP", "NNN+BP"]), "sweeps": rng.choice([1, 3, 10])}
+    else:
+        evo = {"env": "ntu", "which": rng.choice(NTU_WHICH)}
+    if rng.random() < 0.8:
+        # "pinv_cutoffs: list of pseudo-inverse cutoffs; the one that gives the smallest truncation error is used": any order,
+        # any subset that contains a cutoff <= 1e-12 (so that the regularisation does not bind, see pinv_may_bind)
+        grid = list(PINV_GRID) + [1e-13]
+        sub = rng.sample(grid, rng.randint(2, len(grid))) if rng.random() < 0.5 else list(PINV_GRID)
+        if min(sub) > 1e-12:
+            sub.append(rng.choice([1e-12, 1e-13]))
+        order = rng.choice(["descending", "descending", "shuffled", "ascending"])
+        if order == "shuffled":
+            rng.shuffle(sub)
+        else:
+            sub.sort(reverse=(order == "descending"))
+        evo["pinv_cutoffs"] = sub
+    bipartite = (evo["env"] == "bp" and evo["which"] == "BP")
+    evo["initialization"] = rng.choice(["EAT_SVD", "SVD", "SVD_EAT", "EAT_SVD"])
+    evo["max_iter"] = rng.choice([100, 100, 1, 5, 20])
+    evo["tol_iter"] = rng.choice([1e-13, 1e-10, 1e-15])
+    evo["fix_metric"] = rng.choice([0, 0, 1, None])
+    evo["method"] = rng.choice(["mpo", "NN"])
+    if not bipartite and rng.random() < 0.3:
+        evo["svd_steps"] = 2        # opts_svd as a list of dicts with decreasing (never binding) bond dimensions
+    return evo
+
+
+def evo_gate(rng, fam, bond, wide):
+    """the gate of an evolution step; wide=True: with probability 0.6 a WEAK gate (the regime of Trotter steps in which the new
+    bond has components of very different weights)"""
+    gate = random_gate(rng, fam, bond=bond)
+    if wide and rng.random() < 0.6:
+        gate["step"] = _weak_step(rng)
+    return gate
+
+
+def make_evo_env(phi, evo):
+    import yastn.tn.fpeps as fpeps
+    if evo["env"] == "ntu":
+        return fpeps.EnvNTU(phi, which=evo["which"])
+    env = fpeps.EnvBP(phi, which=evo["which"])
+    env.iterate_(max_sweeps=evo.get("sweeps", 10), diff_tol=1e-13)
+    return env
+
+
+def evo_kwargs(evo):
+    kw = {k: evo[k] for k in ("initialization", "max_iter", "tol_iter", "fix_metric", "method") if k in evo}
+    if "pinv_cutoffs" in evo:
+        kw["pinv_cutoffs"] = tuple(evo["pinv_cutoffs"])
+    big = {"D_total": BIG_D, "tol": 1e-14}
+    kw["opts_svd"] = [dict(big), {"D_total": BIG_D // 2, "tol": 1e-14}][:evo["svd_steps"]] if evo.get("svd_steps") else big
+    return kw
+
+
+def pinv_may_bind(fam, psi, gate, evo):
+    """Precondition "the truncation does not bind" for the bipartite truncation (EnvBP(which='BP'), truncate_bipartite_): besides
+    opts_svd it discards BY CONSTRUCTION every eigenvalue of F0 = R0^+ E0 R0, F1 = R1 E1 R1^+ below min(pinv_cutoffs) relative to
+    the largest one (documented regularisation).  The spectra are recomputed here from the real bond metric of the same
+    environment: the truncation does not bind iff no eigenvalue lies in PINV_ZONE (below the zone: directions without weight,
+    |relative eigenvalue| <= 6e-16 observed; above: kept by every generated list of cutoffs)."""
+    phi = psi.copy()
+    env = make_evo_env(phi, evo)
+    G = real_gate(fam, gate)
+    phi.apply_gate_(G)
+    s0, s1 = G.sites
+    dirn = phi.nn_bond_dirn(s0, s1)
+    if dirn in ("rl", "bt"):
+        s0, s1, dirn = s1, s0, dirn[::-1]
+    Q0, R0, Q1, R1 = qr_bond(phi, s0, s1, dirn)
+    g = env.bond_metric(Q0, Q1, s0, s1, dirn)
+    E0, E1 = (g.gL + g.gL.H) / 2, (g.gR + g.gR.H) / 2
+    for F in (R0.H @ E0 @ R0, R1 @ E1 @ R1.H):
+        M = np.asarray(F.to_numpy())
+        ev = np.linalg.eigvalsh((M + M.conj().T) / 2)
+        if not (ev.max() > 0):
+            return True
+        rel = ev / ev.max()
+        if np.any((rel >= PINV_ZONE[0]) & (rel <= PINV_ZONE[1])) or np.any(rel < -PINV_ZONE[0]):
+            return True
+    return False
+
+
+def check_evolution(ctx, fam, recipe, psi, gate, evo):
     """one evolution_step_ with non-binding truncation vs untruncated apply_gate_ (dense), truncation_error at round-off"""
     import yastn.tn.fpeps as fpeps
-    case = {"kind": "evolution", "recipe": recipe, "gate": gate, "which": which}
+    if isinstance(evo, str):        # replay files written before the environment became part of the case
+        evo = {"env": "ntu", "which": evo}
+    which = f"{'EnvNTU' if evo['env'] == 'ntu' else 'EnvBP'}({evo['which']})"
+    bipartite = (evo["env"] == "bp" and evo["which"] == "BP")
+    case = {"kind": "evolution", "recipe": recipe, "gate": gate, "evo": evo}
     exact = psi.copy()
     exact.apply_gate_(real_gate(fam, gate))
     u = dense_of_peps(fam, exact)
+    if bipartite and pinv_may_bind(fam, psi, gate, evo):
+        ctx.count("skipped:evolution:pinv-cutoff-may-bind")
+        return 0
     phi = psi.copy()
     try:
-        env = fpeps.EnvNTU(phi, which=which)
-        infos = fpeps.evolution_step_(env, [real_gate(fam, gate)], opts_svd={"D_total": BIG_D, "tol": 1e-14})
+        env = make_evo_env(phi, evo)
+        infos = fpeps.evolution_step_(env, [real_gate(fam, gate)], **evo_kwargs(evo))
         w = dense_of_peps(fam, phi)
     except Exception as e:
         from harness import core
         if isinstance(e, core.CaseTimeout):
             raise
         ctx.fail("oracle", "c12:evolution:raises",
-                 f"evolution_step_ with non-binding truncation raised {type(e).__name__}: {e} ({recipe['family']} {recipe['dims']} gate {gate['g']} EnvNTU({which}))",
+                 f"evolution_step_ with non-binding truncation raised {type(e).__name__}: {e} ({recipe['family']} {recipe['dims']} gate {gate['g']} {which} {evo})",
                  case=case, concrete=True)
         return 0
     defect = proportional_defect(u, w)
     ctx.count("compared")
-    ctx.count(f"evolution:{which}")
-    ctx.extra["max_evolution_defect"] = max(ctx.extra.get("max_evolution_defect", 0.0), defect)
-    tag = f"{recipe['family']} {recipe['dims']} gate {gate['g']} on {gate.get('bond')} EnvNTU({which})"
-    if not (defect <= TOL):
+    ctx.count(f"evolution:{evo['env']}:{evo['which']}")
+    if "pinv_cutoffs" in evo:
+        pc = evo["pinv_cutoffs"]
+        ctx.count("evolution:pinv_cutoffs:" + ("ascending" if pc == sorted(pc) else ("descending" if pc == sorted(pc, reverse=True) else "mixed")))
+    ctx.count("evolution:gate:" + ("weak" if abs(complex(*gate["step"])) < 0.2 else "strong"))
+    key = "max_evolution_defect_bipartite" if bipartite else "max_evolution_defect"
+    ctx.extra[key] = max(ctx.extra.get(key, 0.0), defect)
+    tag = f"{recipe['family']} {recipe['dims']} gate {gate['g']} on {gate.get('bond')} {which}" + (f" options {evo}" if len(evo) > 2 else "")
+    tol_state = TOL_BIPARTITE if bipartite else TOL
+    # truncation_error is the square root of a difference: sqrt(round-off) when the error is evaluated through pseudo-inverses
+    tol_te = TOL_TRUNC_SQRT if (bipartite or "SVD" not in evo.get("initialization", "EAT_SVD")) else TOL_TRUNC
+    if not (defect <= tol_state):
         ctx.fail("oracle", "c12:evolution:state",
-                 f"evolution_step_ with non-binding truncation does not reproduce the exactly evolved state up to a scalar: ray distance {defect:.3g} ({tag})",
+                 f"evolution_step_ with non-binding truncation does not reproduce the exactly evolved state up to a scalar: ray distance {defect:.3g} > {tol_state} ({tag})",
                  case=dict(case, defect=defect), concrete=True)
     if len(infos) != 1:
         ctx.fail("oracle", "c12:evolution:infos", f"evolution_step_ returned {len(infos)} Evolution_out for one two-site gate ({tag})", case=case, concrete=True)
     for info in infos:
         te = float(abs(info.truncation_error))
-        ctx.extra["max_truncation_error"] = max(ctx.extra.get("max_truncation_error", 0.0), te)
-        if not (te <= TOL_TRUNC):
+        key = "max_truncation_error_sqrt" if tol_te == TOL_TRUNC_SQRT else "max_truncation_error"
+        ctx.extra[key] = max(ctx.extra.get(key, 0.0), te)
+        if not (te <= tol_te):
             ctx.fail("oracle", "c12:evolution:truncation_error",
-                     f"Evolution_out.truncation_error = {te:.3g} > {TOL_TRUNC} although the truncation does not bind ({tag})",
+                     f"Evolution_out.truncation_error = {te:.3g} > {tol_te} although the truncation does not bind ({tag})",
                      case=dict(case, truncation_error=te), concrete=True)
-        nh = float(abs(info.nonhermitian_part))
-        me = float(info.min_eigenvalue) if info.min_eigenvalue is not None else 0.0
-        if not (nh <= TOL_METRIC) or not (me >= -TOL_METRIC):
-            ctx.fail("oracle", "c12:evolution:metric-report",
-                     f"Evolution_out reports nonhermitian_part={nh:.3g}, min_eigenvalue={me:.3g} for a tree/exact cluster metric ({tag})",
-                     case=dict(case, nonhermitian_part=nh, min_eigenvalue=me), concrete=True)
-        # the bond dimension after a non-binding truncation cannot exceed the untruncated one
+        if evo["env"] == "ntu":
+            # (bond metrics of NTU environments are Hermitian and positive semi-definite; min_eigenvalue is None for fix_metric=None)
+            nh = float(abs(info.nonhermitian_part)) if info.nonhermitian_part is not None else 0.0
+            me = float(info.min_eigenvalue) if info.min_eigenvalue is not None else 0.0
+            if not (nh <= TOL_METRIC) or not (me >= -TOL_METRIC):
+                ctx.fail("oracle", "c12:evolution:metric-report",
+                         f"Evolution_out reports nonhermitian_part={nh:.3g}, min_eigenvalue={me:.3g} for a tree/exact cluster metric ({tag})",
+                         case=dict(case, nonhermitian_part=nh, min_eigenvalue=me), concrete=True)
     return 1
 
 
@@ -1124,6 +1400,9 @@ def run_case(ctx, recipe, quick, rng, signs, probes_override=None):
     D = max(psi.get_bond_dimensions().values()) if psi.get_bond_dimensions() else 1
     ctx.count(f"maxD:{D}")
     kinds = ["bd", "ctm"] + (["bp"] if recipe["loopfree"] else [])
+    weak = recipe.get("flavour") == "weak"
+    if weak:
+        kinds = []      # weakly entangled states serve the evolution step (correlators are O(step): little power for the measure_* probes)
     total = 0
     for kind in kinds:
         spec = env_spec(rng, kind, Nx, Ny)
@@ -1153,11 +1432,15 @@ def run_case(ctx, recipe, quick, rng, signs, probes_override=None):
         wh = NTU_WHICH
     else:
         mb, wh = bonds, NTU_WHICH
+    if weak and quick:
+        wh = rng.sample(NTU_WHICH, 2)
     total += check_metrics(ctx, recipe, psi, mb, wh)
-    for _ in range(1 if quick else 2):
+    n_default, n_wide = (0, 6 if quick else 10) if weak else ((1, 1) if quick else (2, 2))
+    for i in range(n_default + n_wide):
+        wide = i >= n_default
         b = rng.choice(bonds)
-        gate = random_gate(rng, fam, bond=b if rng.random() < 0.6 else [b[1], b[0]])
-        total += check_evolution(ctx, fam, recipe, psi, gate, rng.choice(NTU_WHICH))
+        gate = evo_gate(rng, fam, b if rng.random() < 0.6 else [b[1], b[0]], wide)
+        total += check_evolution(ctx, fam, recipe, psi, gate, evolution_spec(rng, fam, wide))
     return True
 
 
@@ -1429,6 +1712,8 @@ QUICK_PLAN = [
     # (family, Nx, Ny, flavour)
     ("sf:U1", 1, 2, "full"), ("sf:Z2", 2, 1, "full"), ("sff:Z2", 1, 2, "full"), ("s12:dense", 2, 1, "full"),
     ("sf:Z2", 1, 3, "full"), ("sf:U1", 3, 1, "full"),
+    # weakly entangled states (small steps): evolution steps only
+    ("s12:Z2", 2, 2, "weak"), ("sf:U1", 2, 2, "weak"), ("sf:Z2", 1, 3, "weak"), ("sff:U1xU1", 2, 2, "weak"), ("sf:U1", 3, 1, "weak"),
     ("sf:U1", 2, 2, "full"), ("sf:Z2", 2, 2, "full"), ("s12:Z2", 2, 2, "full"), ("sff:U1xU1xZ2", 2, 2, "tree"),
     ("sf:Z2", 2, 3, "tree"), ("sf:U1", 3, 2, "rich"), ("sff:Z2", 2, 2, "full"), ("s12:dense", 2, 3, "full"),
     ("sf:Z2", 3, 2, "full"), ("sff:U1xU1", 2, 2, "tree"),
@@ -1457,6 +1742,9 @@ def thorough_plan(rng):
     plan += [("sf:Z2", 2, 3, "rich"), ("sf:Z2", 3, 2, "rich"), ("sf:U1", 3, 3, "rich"), ("sf:U1", 2, 4, "rich"),
              ("sff:U1", 2, 2, "rich"), ("sff:U1xU1xZ2", 2, 2, "rich"), ("sff:Z2", 2, 2, "rich"), ("sff:U1xU1", 2, 3, "rich"),
              ("sff:U1", 3, 2, "rich"), ("s12:Z2", 2, 3, "rich")]
+    # 'weak' states (small steps): evolution steps with every environment / option
+    plan += [("sf:Z2", 2, 3, "weak"), ("s12:dense", 2, 2, "weak"), ("sf:Z2", 2, 2, "weak"), ("sff:Z2", 2, 2, "weak"), ("sff:U1", 2, 2, "weak"), ("sff:U1xU1xZ2", 2, 2, "weak"), ("s12:U1", 2, 2, "weak"),
+             ("sf:U1", 1, 4, "weak"), ("sf:U1", 3, 2, "weak"), ("s12:Z2", 2, 3, "weak"), ("sf:Z2", 3, 3, "weak"), ("sff:U1xU1", 1, 3, "weak")]
     return plan
 
 
@@ -1470,8 +1758,12 @@ def run(ctx):
                 "(+CTM 2x2/line/nsite_exact) on random neutral operator words incl. odd fermionic operators, repeated sites and "
                 "orders with i>j, and — on 'rich' half-filled states with a gate on every bond — words of >= 3 charged operators with "
                 "overlapping strings, against a NumPy Jordan-Wigner reference on to_tensor(); boundary MPSs built with random opts_var "
-                "(normalised / un-normalised refinement); NTU metrics of all six cluster types; one "
-                "evolution_step_ with non-binding truncation.  A case is non-trivial if its circuit has a two-site gate; distinct by recipe")
+                "(normalised / un-normalised refinement); dict / list input forms of measure_nn and measure_1site with the bonds / sites "
+                "in any order; measure_2site on windows anywhere in the lattice for both environments with every form of `pairs` incl. "
+                "explicit lists; NTU metrics of all six cluster types; evolution_step_ with non-binding truncation: EnvNTU with default "
+                "options and EnvBP (bipartite, NN+BP, NNN+BP) / EnvNTU with random valid options (pinv_cutoffs in any order, "
+                "initialization, max_iter, tol_iter, fix_metric, method, opts_svd list), strong and weak gates, also on weakly entangled "
+                "'weak' states.  A case is non-trivial if its circuit has a two-site gate; distinct by recipe")
     ctx.notes += [
         "domain restrictions of the probes (observations on the unchanged tree, no alarm): EnvCTM.measure_nsite_exact / measure_2x2 are "
         "probed on lattices with Nx, Ny >= 2 only (on 1xN / Nx1 lattices they enlarge the window beyond the lattice and raise KeyError); "
@@ -1481,6 +1773,13 @@ def run(ctx):
         "method= and normalize= (a dict containing those keys is a TypeError by construction), and Schmidt_tol makes "
         "mps.compression_ raise ValueError('max() iterable argument is empty') on the one-site boundary MPSs of 1xN lattices "
         "(observation about mps.compression_, outside C12; not probed)",
+        "options of evolution_step_ NOT generated (observations on the unchanged tree, no alarm): max_iter=0 (optimize_truncation raises "
+        "UnboundLocalError: no iteration, no result); opts_svd as a list of dicts together with EnvBP(which='BP') (truncate_bipartite_ "
+        "passes the list to svd_with_truncation(**opts_svd): TypeError, although evolution_step_ documents Sequence[dict]); "
+        "initialization='EAT' alone (the EAT initialisation discards bond components below min(pinv_cutoffs) of a PRODUCT approximation of "
+        "the metric: no exact criterion for 'does not bind' is available to the harness); EnvCTM.measure_nn with LISTS of operators "
+        "(accepted by clear_operator_input but the loop re-uses the modified loop variable O: YastnError for >= 2 operators in P; the "
+        "docstring of measure_nn promises single tensors only)",
     ]
     ctx.assumptions += [
         "to_tensor() returns the dense state in the PEPS fermionic order (property C11); validated per case against an independent NumPy "
@@ -1488,8 +1787,11 @@ def run(ctx):
         "LAPACK/NumPy linear algebra (eigvalsh, expm) used by the reference is accurate to round-off",
         "measurements whose internal boundary-MPS truncation binds (discarded weight > 1e-12 reported by mps.zipper) are outside "
         "'contracted without truncation' and are skipped with a count",
+        "bipartite truncation (EnvBP(which='BP')): 'the truncation does not bind' is decided from the eigenvalues of R0^+ gL R0 and "
+        "R1 gR R1^+ computed by the harness from the REAL EnvBP.bond_metric and QR factors of the real tensors (relative eigenvalues in "
+        "[1e-14, 1e-9] -> skipped); the state tolerance there is 1e-6 (amplitude resolution of a 1e-13 cutoff on squared weights)",
     ]
-    t_budget = 60 if quick else 780
+    t_budget = 65 if quick else 780
     plan = list(QUICK_PLAN) if quick else thorough_plan(rng)
     if not quick:
         plan += [p for p in thorough_plan(rng) if p[1] * p[2] >= 4 and p[1] * p[2] <= 6]   # second circuits on the mid-size lattices
@@ -1521,7 +1823,8 @@ def run(ctx):
         ctx.count("case-seconds", int(round(time.time() - t0)))
         done += 1
     correspond_signs(ctx, signs_by_family)
-    ctx.extra["tolerances"] = {"expectation": TOL, "metric": TOL_METRIC, "truncation_error": TOL_TRUNC, "binding": BIND}
+    ctx.extra["tolerances"] = {"expectation": TOL, "metric": TOL_METRIC, "truncation_error": TOL_TRUNC, "binding": BIND,
+                               "truncation_error_pinv_paths": TOL_TRUNC_SQRT, "evolved_state_bipartite": TOL_BIPARTITE, "pinv_zone": list(PINV_ZONE)}
 
 
 SEARCH_PLAN = [("sf:U1", 3, 2), ("sf:U1", 2, 3), ("sff:U1xU1", 2, 2), ("sff:U1", 2, 2), ("sf:Z2", 2, 3), ("sff:U1xU1xZ2", 2, 2),
@@ -1590,7 +1893,7 @@ def replay(ctx, obj):
         check_metrics(ctx, case["recipe"], psi, [case["bond"]], [case["which"]])
     elif kind == "evolution":
         g, psi = build_state(case["recipe"])
-        check_evolution(ctx, family(case["recipe"]["family"]), case["recipe"], psi, case["gate"], case["which"])
+        check_evolution(ctx, family(case["recipe"]["family"]), case["recipe"], psi, case["gate"], case.get("evo") or case["which"])
     elif kind == "pending-swaps":
         check_pending_swaps(ctx, case)
     elif kind == "sign":
